@@ -6,6 +6,7 @@ from ..r_rules import rule_tables_applicable
 
 from ..r_domains import rule_domains
 from ..r_escape import rule_yield_then_mutate, rule_borrowed_pool
+from ..r_hygiene import rule_hygiene as _rule_hygiene
 
 LEVEL = 'other'
 
@@ -21,3 +22,4 @@ def run(ck, repo):
     in_kekule = lambda f: f.module.name == 'chython.algorithms.aromatics.kekule'
     rule_yield_then_mutate(ck, repo, 'C05.D4-yielded-forms-immutable', in_kekule, floor=3)
     rule_borrowed_pool(ck, repo, 'C05.D4-pooled-forms-copied', in_kekule, floor=1)
+    _rule_hygiene(ck, repo, 'C05.H-dataflow-hygiene', 'C05')
